@@ -328,10 +328,11 @@ theorem relaxed_inv (x : Q) (hx : RelaxedInv x) :
 theorem relaxed_pow (x : Q) (n : ℕ) (hx : RelaxedInv x) :
     RelaxedInv (pow x n) ∧ (pow x n).val = x.val ^ n := by
   obtain ⟨a, b⟩ := x
-  refine ⟨⟨Nat.pow_pos hx.den_pos, ?_⟩, by simp [pow, div_pow]⟩
+  rw [pow_def]
+  refine ⟨⟨Nat.pow_pos hx.den_pos, ?_⟩, by simp [div_pow]⟩
   rintro ⟨e1, e2⟩
   apply hx.2
-  simp only [pow] at e1 e2
+  simp only at e1 e2
   have h1 : Even (a ^ n) := Int.even_iff.mpr e1
   have h2 : Even (b ^ n) := Nat.even_iff.mpr e2
   rw [Int.even_pow] at h1
